@@ -14,7 +14,8 @@
     cur <oid>                         → <tid> | none            (getTid of the whole storage)
     load <oid>                        → <rec> | none            (current committed record)
     loadserial <oid> <tid>            → <rec> | none
-    hist <oid>                        → tid:base:resolved,…      newest first (own history + base)
+    hist <oid>                        → [tid,…]                  newest first (own history + base)
+    revs <oid>                        → [tid:base:resolved,…]
     lock                              → <t> | free
     undo <oid> <ctid> <undone> <pre> <cur>  → ok <rec> [calls] | err:Undo [calls]   (undoResolve)
   state grammar:  a<n>.  |  p<state><state>  |  r<fmt><fields>.
@@ -291,7 +292,13 @@ def srStep (d : DState) (toks : List String) : DState × String :=
           | some r => recStr r
           | none => "none")
     | _, _ => (d, "bad-op")
-  | ["hist", oid] =>
+  | ["hist", oid] =>      -- `history(oid)`: tids of the transactions that wrote the object, newest first
+    match oid.toNat? with
+    | some oid =>
+      (d, "[" ++ joinWith "," (((d.sys.hist ++ d.sys.base).filter (fun t => t.has oid)).map
+                (fun t => toString t.tid)) ++ "]")
+    | none => (d, "bad-op")
+  | ["revs", oid] =>      -- every revision with the serial its writer passed and the resolved flag
     match oid.toNat? with
     | some oid => (d, "[" ++ joinWith "," (histLine (d.sys.hist ++ d.sys.base) oid) ++ "]")
     | none => (d, "bad-op")
